@@ -174,6 +174,15 @@ def cases(rng, tier):
     for i in range(60):
         cs = [rnd_val(rng, 100) for _ in range(rng.choice([5, 6, 8]))]
         yield ("poly extrema %s" % hexcsv(cs), "extrema-high")
+    # straight segments queried with exactly the values the library's own evaluation gives at the two ends of [0,1]
+    # (slopes like 0.1, 0.7, 1.9: p(1) = fl(a + b) is not a + b, and (fl(a + b) - b) / a need not be <= 1 in binary32)
+    for i in range(n // 4):
+        mag = rng.choice([1, 10, 1000])
+        a = f32(rng.choice([0.1, 0.2, 0.7, 1.4, 1.9, -0.1, -0.2, -0.7]) * rng.choice([1, 1, 3, 10])) if rng.random() < 0.5 else rnd_val(rng, mag)
+        b = f32(rng.choice([1.0, 2.0, 0.3, -5.1])) if rng.random() < 0.5 else rnd_val(rng, mag)
+        if a == 0.0:
+            continue
+        yield ("poly touchend %s" % hexcsv([b, a]), "linear-end-values")
 
 
 def _vals(s):
@@ -324,6 +333,19 @@ def compare(case, om, oi):
             if near_solution(r):
                 return None
             return "touches: impl root %s is not a solution in [0,1]; certified leftmost root in [%s, %s]" % (None if r is None else float(r), float(a), float(b))
+        return None
+    if k == "touchend":
+        f = oi.split(" ")
+        if f[0] != "te=1:1":
+            cs = [frac_of_bits(int(x, 16)) for x in _vals(w[2])]
+            ys = f[1][2:].split(":")
+            which = 0 if f[0].startswith("te=0") else 1
+            return "p(t) = %s + %s t evaluates (sb_poly_eval) to exactly %s at t = %d, but sb_poly_touches reports no solution in [0,1]" % (
+                float(cs[0]), float(cs[1]), float(frac_of_bits(int(ys[which], 16))), which)
+        for r in f[2][2:].split(":"):
+            rv = frac_of_bits(int(r, 16))
+            if rv is None or not (Fraction(-1, 1000) <= rv <= 1 + Fraction(1, 1000)):
+                return "touches at an end value returned the parameter %s" % (None if rv is None else float(rv))
         return None
     if k == "extrema":
         cs = [frac_of_bits(int(x, 16)) for x in _vals(w[2])]
